@@ -700,6 +700,16 @@ pub enum DeltaError {
     Archive(ArchiveError),
 }
 
+impl DeltaError {
+    /// Returns whether the error happened when requesting the delta.
+    ///
+    /// If this returns `true`, processing of the delta has not yet started
+    /// and the archive has not been touched.
+    pub fn is_request_error(&self) -> bool {
+        matches!(self, DeltaError::Http(_) | DeltaError::HttpStatus(_))
+    }
+}
+
 impl From<reqwest::Error> for DeltaError {
     fn from(err: reqwest::Error) -> Self {
         DeltaError::Http(err)
